@@ -141,6 +141,18 @@ func parseObjects(
 			return
 		}
 
+		// The condition-map annotation is parsed again when collecting objects into phases,
+		// where no error can be reported anymore.
+		if _, cmErr := parseConditionMapAnnotation(&obj); cmErr != nil {
+			err = packagetypes.ViolationError{
+				Reason:  packagetypes.ViolationReasonInvalidConditionMapAnnotation,
+				Details: cmErr.Error(),
+				Path:    path,
+				Index:   ptr.To(idx),
+			}
+			return
+		}
+
 		if len(obj.Object) != 0 {
 			obj.SetLabels(labels.Merge(obj.GetLabels(), commonLabels(manifest, tmplCtx.Package.Name)))
 			objects = append(objects, obj)
